@@ -34,7 +34,16 @@ fn effective(world: &World, alt: &[Option<Vec<Edge>>], variants: &[bool]) -> Wor
   w
 }
 
-fn scratch(world: &World, roots: &[ModuleSpecifier], ch: &Ch, kind: GraphKind) -> Option<ModuleGraph> {
+/// the configured (tsconfig-like) type import of the world's last specifier
+fn configured_import(world: &World) -> Vec<deno_graph::ReferrerImports> {
+  let n = world.kinds.len();
+  vec![deno_graph::ReferrerImports {
+    referrer: url(&format!("{}deno.json", world.base())),
+    imports: vec![format!("./{}", world.kinds[n - 1].file_name(n - 1))],
+  }]
+}
+
+fn scratch(world: &World, roots: &[ModuleSpecifier], ch: &Ch, kind: GraphKind, with_import: bool) -> Option<ModuleGraph> {
   let sched = Sched::new(SchedMode::Immediate);
   let loader = ScriptedLoader::new(sched);
   world.install(&loader);
@@ -46,6 +55,7 @@ fn scratch(world: &World, roots: &[ModuleSpecifier], ch: &Ch, kind: GraphKind) -
     BuildCfg {
       unstable_bytes: true,
       unstable_text: true,
+      imports: if with_import { configured_import(world) } else { vec![] },
       ..Default::default()
     },
     ch,
@@ -184,7 +194,11 @@ fn body_with(generate: impl Fn(&Ch) -> World + Sync + Send, depth: usize) -> imp
     let editable: Vec<usize> = (0..n_specs)
       .filter(|i| alt[*i].is_some() && !asset_target(*i))
       .collect();
-    let n_ops = 3 + editable.len();
+    // the configured import is an attribute-less import of the last specifier (proviso)
+    let last = n_specs - 1;
+    let import_allowed = world.attrs[last] == Attr::None && world.attrs[world.final_target(last)] == Attr::None && !asset_target(last) && !asset_target(world.final_target(last));
+    let n_ops = 4 + editable.len();
+    let mut import_given = false;
     let mut outcome = vec![];
     for step in 0..depth {
       // op 0 = stop (so that shorter histories are prefixes, explored once)
@@ -207,13 +221,23 @@ fn body_with(generate: impl Fn(&Ch) -> World + Sync + Send, depth: usize) -> imp
         ..Default::default()
       };
       let mut reloaded: Option<usize> = None;
-      if op < 3 {
+      if op == 3 && !import_allowed {
+        break;
+      }
+      if op <= 3 {
         let set: Vec<ModuleSpecifier> = match op {
-          0 => vec![r0.clone()],
+          0 | 3 => vec![r0.clone()],
           1 => vec![r1.clone()],
           _ => vec![r0.clone(), r1.clone()],
         };
-        history.push(format!("build({})", set.iter().map(|s| s.path()).collect::<Vec<_>>().join(",")));
+        // op 3: the same build call also brings a configured type import
+        let adds_import = op == 3 && !import_given;
+        if op == 3 {
+          import_given = true;
+          history.push(format!("build({}; configured import of {})", r0.path(), world.url(last).path()));
+        } else {
+          history.push(format!("build({})", set.iter().map(|s| s.path()).collect::<Vec<_>>().join(",")));
+        }
         cur.install(&loader);
         let all_known = set.iter().all(|s| roots_so_far.contains(s));
         for s in &set {
@@ -221,11 +245,15 @@ fn body_with(generate: impl Fn(&Ch) -> World + Sync + Send, depth: usize) -> imp
             roots_so_far.push(s.clone());
           }
         }
-        if build_graph(&mut graph, set, &loader, cfg(), ch).is_err() {
+        let mut c = cfg();
+        if op == 3 {
+          c.imports = configured_import(&world);
+        }
+        if build_graph(&mut graph, set, &loader, c, ch).is_err() {
           run.violate("build-did-not-finish", "deadlock", json!({"history": history}));
           break;
         }
-        if all_known {
+        if all_known && !adds_import {
           // building again with roots it already has changes nothing
           let after = obs(&graph);
           run.evals += 1;
@@ -241,7 +269,7 @@ fn body_with(generate: impl Fn(&Ch) -> World + Sync + Send, depth: usize) -> imp
         if roots_so_far.is_empty() {
           break; // nothing to reload yet
         }
-        let m = editable[op - 3];
+        let m = editable[op - 4];
         variants[m] = !variants[m];
         edited = true;
         let cur = effective(&world, &alt, &variants);
@@ -271,7 +299,7 @@ fn body_with(generate: impl Fn(&Ch) -> World + Sync + Send, depth: usize) -> imp
       }
       // compare with a from-scratch build of all roots on the current sources
       let cur = effective(&world, &alt, &variants);
-      let Some(fresh) = scratch(&cur, &roots_so_far, ch, kind) else {
+      let Some(fresh) = scratch(&cur, &roots_so_far, ch, kind, import_given) else {
         break;
       };
       let mut a = obs(&graph);
@@ -437,7 +465,7 @@ pub fn prop(tier: Tier) -> Prop {
   };
   Prop {
     id: "C19",
-    rule: "state = (world, alternative import lists, operation history); histories are all sequences up to the depth over {build(r0), build(r1), build(r0,r1), edit+reload(m) for each source module}; after every operation the live graph is compared with a from-scratch build of the roots so far on the current sources (whole graph when no edit happened; reachable entries + untouched leftovers after edits); rebuilding known roots must be a no-op. Non-trivial = history of >= 2 operations.".into(),
+    rule: "state = (world, alternative import lists, operation history); histories are all sequences up to the depth over {build(r0), build(r1), build(r0,r1), build(r0) together with a configured type import, edit+reload(m) for each source module}; after every operation the live graph is compared with a from-scratch build of the roots so far on the current sources (whole graph when no edit happened; reachable entries + untouched leftovers after edits); rebuilding known roots must be a no-op. Non-trivial = history of >= 2 operations.".into(),
     assumptions: vec![
       "history operations are free (shape) choices - every history up to the depth is explored for every world within the deviation bound".into(),
       "an edit toggles one module between its generated import list and one alternative import list (a missing / unparsable / loader-error entry toggles to a healthy TypeScript module and back); it is always followed by a reload that names that specifier or (one deviation) a specifier redirecting to it - Builder::reload resolves redirects, so embedders may name either".into(),
